@@ -143,6 +143,8 @@ Unroll(items, p, defs) ==
                 cv  == Value(it.count, env, 0)
                 out == Unroll(Copies(it, 1, cv.v, p, defs), p, defs)
             IN IF ~cv.ok THEN << [t |-> "error"] >>          \* a count that cannot be evaluated: the program has no meaning
+               \* labels of a block that emits no instruction: the property does not say what they name - no meaning either
+               ELSE IF it.labels # << >> /\ ~\E k \in 1..Len(out) : out[k].t = "ins" THEN << [t |-> "error"] >>
                ELSE AttachLabels(out, it.labels) \o Unroll(Tail(items), p, defs \o SelectSeq(out, LAMBDA x : x.t = "equ"))
 Copies(it, i, n, p, defs) ==
   IF i > n THEN << >> ELSE SubItems(it.body, it.ctr, i, {}, "") \o Copies(it, i + 1, n, p, defs)
